@@ -42,6 +42,17 @@ Theorem C04_C06_C07_C11_C12_refusal_is_final : forall c o pos tr r pre s kd n po
 Proof. exact inner_refusal_is_final. Qed.
 Print Assumptions C04_C06_C07_C11_C12_refusal_is_final.
 
+(* ... and the one exception: after update_integration_branches raised, exactly one thing runs when the exception
+   is a Conflict - the push of the integration branches built so far - and the Conflict then goes on; on any other
+   exception nothing runs. *)
+Theorem conflict_handler : forall c o pos tr r pre kd n post,
+  exec o pos (pr_inner c) = (tr, r) -> tr = pre ++ (SUpdate, ARaise kd n) :: post ->
+  reaches (is_stage SUpdate) pre = false ->
+  (n = "Conflict"%string -> exists a, post = [(SPushPartial, a)] /\ (a = AOk -> r = ORaise n)) /\
+  (n <> "Conflict"%string -> post = [] /\ r = ORaise n).
+Proof. exact inner_update_raise. Qed.
+Print Assumptions conflict_handler.
+
 (* C06: the two review / CI gates are the last things asked before the decision: between check_build_status and
    the landing step only build_queue_collection, is_needed and queues.validate / queues.delete run - nothing
    that could move an integration branch after its status was read. *)
